@@ -9,8 +9,9 @@ package sarama
 // user data. It is injected into the package with `go test -overlay` by /verif/bin/check (nothing is written to
 // /repo). A failure is reported with the concrete input that fails.
 //
-// Bound (quick):    members <= 3, topics <= 2, partitions per topic <= 3, every non-empty subscription subset
-// Bound (thorough): members <= 4, topics <= 2, partitions per topic <= 4
+// Bound (quick):    members <= 3, topics <= 2, partitions per topic <= 3, every non-empty subscription subset, each shape 3 times
+// Bound (thorough): members <= 4, topics <= 2, partitions per topic <= 4, each shape 8 times
+// (the strategy ranges over Go maps, so its result may depend on the randomised iteration order: hence the repetitions)
 // (selected by the environment variable VERIF_TIER)
 
 import (
@@ -182,9 +183,9 @@ func vbSubsets(topics []string) [][]string {
 }
 
 func TestVerifBoundedSticky(t *testing.T) {
-	maxMembers, maxParts := 3, 3
+	maxMembers, maxParts, reps := 3, 3, 3
 	if os.Getenv("VERIF_TIER") == "thorough" {
-		maxMembers, maxParts = 4, 4
+		maxMembers, maxParts, reps = 4, 4, 8
 	}
 	topicNames := []string{"ta", "tb"}
 	subsets := vbSubsets(topicNames)
@@ -216,6 +217,27 @@ func TestVerifBoundedSticky(t *testing.T) {
 					topics["tb"] = append(topics["tb"], int32(p))
 				}
 				rec(nm, nil, func(subs [][]string) {
+					// the strategy iterates over Go maps, whose order changes from call to call: every shape is run several times
+					for rep := 0; rep < reps; rep++ {
+						vbRunShape(t, subs, topics, &cases, fail)
+					}
+				})
+			}
+		}
+	}
+	fmt.Printf("BOUNDED cases=%d failures=%d bound=members<=%d,topics<=2,partitions<=%d,repetitions=%d\n", cases, failures, maxMembers, maxParts, reps)
+	if failures > 0 {
+		t.Fail()
+	}
+}
+
+func vbRunShape(t *testing.T, subs [][]string, topics map[string][]int32, casesp *int, fail func(prop, what string, sh vbShape, err error)) {
+	{
+		{
+			{
+				func(subs [][]string) {
+					cases := 0
+					defer func() { *casesp += cases }()
 					// the consumer group hands Plan the topics some member subscribes to
 					used := map[string][]int32{}
 					for _, ts := range subs {
@@ -340,6 +362,58 @@ func TestVerifBoundedSticky(t *testing.T) {
 							fail("C08", "valid (subscription dropped, stale user data)", sh6, err)
 						}
 					}
+					// round 3d: the last member joins a group formed by the others: plan for the others first, feed that
+					// plan back, then plan for everybody. The result must be valid and balanced, and with identical
+					// subscriptions nothing moves between the old members.
+					if len(subs) > 1 {
+						old := vbShape{subs: subs[:len(subs)-1], topics: map[string][]int32{}}
+						for _, ts := range old.subs {
+							for _, tn := range ts {
+								old.topics[tn] = topics[tn]
+							}
+						}
+						planOld, err := BalanceStrategySticky.Plan(vbMembers(old, nil, 0, t), old.topics)
+						if err != nil {
+							fail("C08", "plan (before join)", old, err)
+							return
+						}
+						planJoin, err := BalanceStrategySticky.Plan(vbMembers(sh, planOld, 1, t), sh.topics)
+						if err != nil {
+							fail("C08", "plan (member joined)", sh, err)
+							return
+						}
+						if err := vbValid(sh, planJoin); err != nil {
+							fail("C08", "valid (member joined)", sh, err)
+						}
+						if err := vbBalanced(sh, planJoin); err != nil {
+							fail("C13", "balanced (member joined)", sh, err)
+						}
+						identical := true
+						for _, ts := range subs {
+							if strings.Join(ts, ",") != strings.Join(subs[0], ",") {
+								identical = false
+							}
+						}
+						if identical {
+							for i := range old.subs {
+								id := vbMemberID(i)
+								for topic, parts := range planJoin[id] {
+									for _, p := range parts {
+										had := false
+										for _, q := range planOld[id][topic] {
+											if q == p {
+												had = true
+											}
+										}
+										if !had {
+											fail("C13", "sticky: a member joining moves nothing between the old members", sh,
+												fmt.Errorf("%s gained %s/%d: %s -> %s", id, topic, p, vbPlanKey(planOld), vbPlanKey(planJoin)))
+										}
+									}
+								}
+							}
+						}
+					}
 					// round 4: conflicting user data (every member claims the whole first plan, same generation)
 					members := vbMembers(sh, nil, 0, t)
 					all := map[string][]int32{}
@@ -364,12 +438,8 @@ func TestVerifBoundedSticky(t *testing.T) {
 					if err := vbValid(sh, plan4); err != nil {
 						fail("C08", "valid (conflicting user data)", sh, err)
 					}
-				})
+				}(subs)
 			}
 		}
-	}
-	fmt.Printf("BOUNDED cases=%d failures=%d bound=members<=%d,topics<=2,partitions<=%d\n", cases, failures, maxMembers, maxParts)
-	if failures > 0 {
-		t.Fail()
 	}
 }
